@@ -14,7 +14,7 @@ use vpmodel::spec::{mono, ChainSpec};
 pub const DEF: PropDef = PropDef {
     id: "C04",
     level: "exploration",
-    rule: "an active chain plus generated extra index records: header-only records (status VALID_TREE or VALID_HEADER, optionally with FAILED_VALID / FAILED_CHILD / OPT_WITNESS bits; no file fields) at occupied heights and beyond the tip, never-connected stale siblings with data (status 3|8), failed blocks (3|8|32, 5|8|16|64) and reorged-out branches of length 1..3 (status 29) at occupied heights below the tip; each competitor's hash is steered (nonce search) to sort before or after the active block's hash as LevelDB key. Runs with and without --verify (--verify only where no competitor is predicted to win, since a delivered competitor fails its successor's prev-hash verification). csvdump/unspentcsvdump/balances output must equal the reference model of the ACTIVE chain. Open finding D7 (known_findings.json): when the output instead equals, exactly, the prediction 'per height the data-bearing record with the greatest key wins', the case is reported as KNOWN-FINDING; any other deviation is a violation. Non-trivial = at least one data-bearing competitor or header-only record at an occupied height; distinct by (extras multiset, key-order pattern).",
+    rule: "an active chain plus generated extra index records: header-only records (status VALID_TREE or VALID_HEADER, optionally with FAILED_VALID / FAILED_CHILD / OPT_WITNESS bits; no file fields) at occupied heights and beyond the tip, never-connected stale siblings with data (status 3|8), failed blocks (3|8|32, 5|8|16|64) and reorged-out branches of length 1..3 (status 29) at occupied heights below the tip; each competitor's hash is steered (nonce search) to sort before or after the active block's hash as LevelDB key. Runs with and without --verify (--verify only where no competitor is predicted to win, since a delivered competitor fails its successor's prev-hash verification). csvdump/unspentcsvdump/balances output must equal the reference model of the ACTIVE chain. Open finding D7 (known_findings.json): when the output instead equals, exactly, the prediction 'per height the data-bearing record with the greatest key wins', the case is reported as KNOWN-FINDING; any other deviation is a violation. Non-trivial = at least one data-bearing competitor or header-only record at an occupied height; distinct by (extras multiset, key-order pattern). 30-40 % of the cases carry --start / --end (both expectations are restricted to the range).",
     assumptions: &["steady-state index: the active tip is strictly higher than every other record of validity VALID_SCRIPTS", "header-only records carry a header whose version bytes terminate the two VarInts the tool reads past the record fields (true of real headers)"],
     run,
     replay,
@@ -62,6 +62,11 @@ pub struct Case {
     /// competitor would fail the prev-hash verification of its successor)
     #[serde(default)]
     pub verify: bool,
+    /// --start / --end selectors (None = option absent)
+    #[serde(default)]
+    pub start_sel: Option<u16>,
+    #[serde(default)]
+    pub end_sel: Option<u16>,
 }
 
 pub fn strategy(tier: Tier) -> BS<Case> {
@@ -71,15 +76,15 @@ pub fn strategy(tier: Tier) -> BS<Case> {
     cfg.tx.max_common = 3;
     let extra = (prop_oneof![3 => Just(Kind::HeaderOnly), 3 => Just(Kind::Stale), 1 => Just(Kind::FailedValid), 1 => Just(Kind::FailedChild), 2 => Just(Kind::Reorged)], any::<u16>(), prop_oneof![2 => Just(0u8), 1 => 1u8..5], any::<bool>(), 1u8..=3)
         .prop_map(|(kind, at, beyond, later_key, branch)| Extra { kind, at, beyond, later_key, branch });
-    (gen::chain(&cfg), proptest::collection::vec(extra, 1..=4), proptest::sample::select(vec![Callback::CsvDump, Callback::CsvDump, Callback::UnspentCsvDump, Callback::Balances]), proptest::bool::weighted(0.4)).prop_map(|(mut chain, extras, cb, verify)| {
+    (gen::chain(&cfg), proptest::collection::vec(extra, 1..=4), proptest::sample::select(vec![Callback::CsvDump, Callback::CsvDump, Callback::UnspentCsvDump, Callback::Balances]), proptest::bool::weighted(0.4), proptest::option::weighted(0.3, any::<u16>()), proptest::option::weighted(0.4, any::<u16>())).prop_map(|(mut chain, extras, cb, verify, start_sel, end_sel)| {
         // --verify needs the coin's real genesis block at height 0
         chain.real_genesis = chain.real_genesis || verify;
-        Case { chain, extras, cb, verify }
+        Case { chain, extras, cb, verify, start_sel, end_sel }
     }).boxed()
 }
 
 /// a competitor of `active` at the same height: other nonce, marked coinbase output
-fn competitor(active: &Block, prev: [u8; 32], later: bool, salt: u32) -> Block {
+pub fn competitor(active: &Block, prev: [u8; 32], later: bool, salt: u32) -> Block {
     let mut b = active.clone();
     b.prev = prev;
     // a recognisable payment so that a delivered competitor changes every callback's output
@@ -181,23 +186,29 @@ pub fn check(c: &Case) -> Verdict {
     let differs = predicted.iter().zip(built.blocks.iter()).any(|(p, a)| p.1.hash() != a.1.hash());
     let verify = c.verify && !differs && c.chain.base == 0 && c.chain.real_genesis && vpmodel::chain::genesis_block(built.coin).is_some();
     o.verify = verify;
+    // a range: the records of the other heights (competitors included) must not influence what is delivered inside it
+    let s = c.start_sel.map(|x| (x as u64 * (tip + 1)) >> 16).unwrap_or(0);
+    let end = c.end_sel.map(|x| s + 1 + ((x as u64 * (tip + 2 - s)) >> 16));
+    let e = end.map(|x| x.min(tip)).unwrap_or(tip);
+    o.start = if c.start_sel.is_some() { Some(s) } else { None };
+    o.end = end;
     let out = infra!(w.run(&o));
     if let Some(v) = timed_out_is_infra(&out) {
         return v;
     }
-    let active = built.all();
-    let correct = check_callback(c.cb, built.coin, &active, &out, 0);
+    let active = range_of(&built.blocks, s, e);
+    let correct = check_callback(c.cb, built.coin, &active, &out, s);
     let mut known = vec![];
     if let Err(m) = &correct {
-        let pr: Vec<(u64, &Block)> = predicted.iter().map(|(h, b)| (*h, b)).collect();
-        if d7_listed() && differs && check_callback(c.cb, built.coin, &pr, &out, 0).is_ok() {
+        let pr: Vec<(u64, &Block)> = range_of(&predicted, s, e);
+        if d7_listed() && differs && check_callback(c.cb, built.coin, &pr, &out, s).is_ok() {
             known.push(D7_SIG.to_string());
         } else {
             return Verdict::Fail(format!("{} output is neither that of the active chain nor the known-finding prediction (extras {:?}): {}", c.cb.cli(), pattern, m));
         }
     }
     pattern.sort();
-    let classes: Vec<String> = pattern.iter().map(|p| format!("extra={}", p)).chain(std::iter::once(format!("cb={}", c.cb.cli()))).chain(std::iter::once(format!("verify={}", verify))).chain(std::iter::once(format!("outcome={}", if known.is_empty() { "active-chain" } else { "known-finding-D7" }))).collect();
+    let classes: Vec<String> = pattern.iter().map(|p| format!("extra={}", p)).chain(std::iter::once(format!("cb={}", c.cb.cli()))).chain(std::iter::once(format!("verify={}", verify))).chain(std::iter::once(format!("ranged={}", c.start_sel.is_some() || c.end_sel.is_some()))).chain(std::iter::once(format!("outcome={}", if known.is_empty() { "active-chain" } else { "known-finding-D7" }))).collect();
     let sample = serde_json::json!({"coin": built.coin.cli(), "tip": tip, "extras": pattern, "callback": c.cb.cli(), "verify": verify, "outcome": if known.is_empty() { "active chain delivered" } else { "D7 prediction" }});
     Verdict::Pass(Pass { nontrivial: interesting, key: vpmodel::hashes::fnv64(format!("{:?}|{}|{}", pattern, n, c.cb.cli()).as_bytes()), classes, known, sub_evals: 1, sample: Some(sample), extra_keys: vec![] })
 }
